@@ -44,7 +44,7 @@ import (
 func init() {
 	Register(&Spec{
 		ID: "C12", Level: "exploration",
-		Rule: "checkpoints of the all-modules director (every ~25 blocks and at the end) are exported with the application's own export; each export G is (1) imported as a whole into a fresh application with the repository's wiring and default options at the exported height, (2) imported once per irismod module with only that module's section (plus the sections it depends on) as exported, (3) exported again after the modules' PrepForZeroHeightGenesis steps and imported at height 1. Each import must be accepted; export(import(G)) must equal G on every irismod section (canonical JSON); and every query of a fixed list about durable objects must answer byte-identically on both applications at the same height and time; then a battery of ordinary messages derived from the exported state (mt/nft/token/coinswap/farm) is carried out on a dropped branch of each state, message by message, and every outcome and every query afterwards must agree; then a battery of ordinary messages derived from the exported state (mt/nft/token/coinswap/farm) is carried out on a dropped branch of each state, message by message, and every outcome and every query afterwards must agree. non-trivial = an import/fixpoint/query comparison actually evaluated on a state with objects of that module; distinct = distinct (mode, module, relation, object kinds present)",
+		Rule: "checkpoints of the all-modules director (every ~25 blocks and at the end) are exported with the application's own export; each export G is (1) imported as a whole into a fresh application with the repository's wiring and default options at the exported height, (2) imported once per irismod module with only that module's section (plus the sections it depends on) as exported, (3) exported again after the modules' PrepForZeroHeightGenesis steps and imported at height 1. Each import must be accepted; export(import(G)) must equal G on every irismod section (canonical JSON); and every query of a fixed list about durable objects must answer byte-identically on both applications at the same height and time; then a battery of ordinary messages derived from the exported state (mt/nft/token/coinswap/farm) is carried out on a dropped branch of each state, message by message, and every outcome and every query afterwards must agree; then a battery of ordinary messages derived from the exported state (mt/nft/token/coinswap/farm) is carried out on a dropped branch of each state, message by message, and every outcome and every query afterwards must agree. non-trivial = an import/fixpoint/query comparison actually evaluated on a state with objects of that module; distinct = distinct (mode, module, relation, object kinds present); since rounds 11-12: the random section imported on its own as well",
 		Assume: []string{"dropped by the modules' own export code and therefore not compared: closed HTLCs, service requests/responses/earned fees, random results", "queries run on contexts with identical height and time (pending farm rewards depend on it)", "isolated imports skip crisis' genesis invariants because the defaulted modules' escrow balances no longer match by construction; the full import does not"},
 		Cases:  func(t string) int { return tierN(t, 8, 32) },
 		Run:    runExportImport,
